@@ -46,6 +46,13 @@ def flatten(shape):
 
 VIS = ["pub", "pub", "pub(crate)", "pub(super)", ""]
 
+# other spellings of the probe types (aliases declared in probe.rs): type names and module paths whose spelling begins like a
+# plain-data type (Option.., Vec.., String.., bool.., char.., str.., f32.., u8.., usize.., HashMap.., ...). A derive that
+# looks at how a field's type is *spelled* must still treat them as the agents they are.
+SPELL = ["OptionsDesk", "VectorisedMakers", "Stringer", "boolean_desk", "charting", "f32_desk", "u64_flow", "isize_mm",
+         "HashMapped", "BTreeMapped", "PhantomDataDesk", "strategies::Trend", "charts::Follower", "u8x::Desk", "i128s::Desk",
+         "usize_agents::Mm"]
+
 def emit_structs(shape, name, derive, probe, out, srng, prefix=""):
     """declarations; nested sets get their own derived struct. The *syntax* of each declaration varies (srng):
     style 0 multi-line with trailing comma, 1 multi-line without a trailing comma after the last field, 2 on one line
@@ -65,6 +72,8 @@ def emit_structs(shape, name, derive, probe, out, srng, prefix=""):
         vis = srng.choice(VIS) if style == 4 else "pub"
         if f[0] == 'leaf':
             ty = f"{probe}<{f[1]}>"
+            if srng.random() < 0.15:
+                ty = f"{srng.choice(SPELL)}<{f[1]}>"
         else:
             ty = f"{prefix}{name}_n{k}"
             emit_structs(f[1], f"{name}_n{k}", derive, probe, out, srng, prefix)
@@ -117,9 +126,9 @@ def main():
         o.append(f"pub mod {kind}_shapes {{")
         o.append("    use super::*;")
         if kind == "env":
-            o.append("    use bourse_de::agents::{Agent, AgentSet};\n    use bourse_de::Env;")
+            o.append("    use bourse_de::agents::{Agent, AgentSet};\n    use bourse_de::Env;\n    #[allow(unused_imports)]\n    use crate::probe::env_spell::*;")
         else:
-            o.append("    use bourse_de::agents::{MarketAgent, MarketAgentSet};\n    use bourse_de::MarketEnv;")
+            o.append("    use bourse_de::agents::{MarketAgent, MarketAgentSet};\n    use bourse_de::MarketEnv;\n    #[allow(unused_imports)]\n    use crate::probe::mkt_spell::*;")
         o.append("    #[allow(unused_macros)]\n    macro_rules! decl_set {\n        ($(#[$m:meta])* $v:vis struct $n:ident { $($(#[$fm:meta])* $fv:vis $f:ident : $t:ty),* }) => {\n            $(#[$m])* $v struct $n { $($(#[$fm])* $fv $f : $t),* }\n        };\n    }")
         entries = []
         shapes = []
